@@ -95,3 +95,18 @@ Definition session (w : world) (env_at_assert : option text) (got : text) : worl
       let (w2, r) := golden_assert (set_env w1 env_at_assert) g got in
       (w2, SAsserted r)
   end.
+
+(* The directory of the golden file: the world's one path together with the other entries of
+   the directory (name and bytes).  Golden::new performs one read_to_string(path) and
+   Golden::assert at most one std::fs::write(path, got); no other path is ever named, so the
+   operations on a directory are the operations on the one path and leave the rest as it is. *)
+Record dirworld := { dw : world; others : list (text * text) }.
+
+Definition dir_new (d : dirworld) : dirworld * new_result :=
+  let (w, r) := golden_new (dw d) in ({| dw := w; others := others d |}, r).
+
+Definition dir_assert (d : dirworld) (g : golden) (got : text) : dirworld * assert_result :=
+  let (w, r) := golden_assert (dw d) g got in ({| dw := w; others := others d |}, r).
+
+Definition dir_session (d : dirworld) (env_at_assert : option text) (got : text) : dirworld * session_result :=
+  let (w, r) := session (dw d) env_at_assert got in ({| dw := w; others := others d |}, r).
